@@ -1,0 +1,94 @@
+//go:build verif
+
+package graph
+
+import (
+	"context"
+	"sort"
+
+	"github.com/compose-spec/compose-go/v2/types"
+)
+
+// VerifPlanView is what CollectInDependencyOrder has set up at the moment it calls walk, observed through the
+// traversal's own functions (ready, adjacentNodes, extremityNodes, skip) rather than by reading its fields.
+type VerifPlanView struct {
+	Verts []string `json:"verts"`
+	// Pre[v]: the services d such that ready(v) answers false when every service but d is visited and d is absent
+	Pre map[string][]string `json:"pre"`
+	// PreEntered[v]: the same with d entered (its visit still running) instead of absent
+	PreEntered map[string][]string `json:"preEntered"`
+	// Post[v]: keys of adjacentNodes(v)
+	Post map[string][]string `json:"post"`
+	// Ext: keys of extremityNodes(g)
+	Ext []string `json:"ext"`
+	// Skip: services for which skip() answers true
+	Skip []string `json:"skip"`
+	// ReadyWhenAllVisited: ready(v) answers true for every v once every service is visited
+	ReadyWhenAllVisited bool `json:"readyAll"`
+	MaxConcurrency      int  `json:"maxConcurrency"`
+}
+
+// VerifPlan runs the part of CollectInDependencyOrder that precedes walk (newGraph, newTraversal, options) and
+// reports the resulting traversal plan. No visitor is called.
+func VerifPlan(project *types.Project, options ...func(*Options)) (*VerifPlanView, error) {
+	g, err := newGraph(project)
+	if err != nil {
+		return nil, err
+	}
+	t := newTraversal(func(context.Context, string, types.ServiceConfig) (any, error) { return nil, nil })
+	for _, option := range options {
+		option(t.Options)
+	}
+	view := &VerifPlanView{
+		Verts: []string{}, Pre: map[string][]string{}, PreEntered: map[string][]string{}, Post: map[string][]string{},
+		Ext: []string{}, Skip: []string{}, ReadyWhenAllVisited: true, MaxConcurrency: t.maxConcurrency,
+	}
+	names := []string{}
+	for name := range g.vertices {
+		names = append(names, name)
+	}
+	sort.Strings(names)
+	view.Verts = names
+	all := func(except string, entered bool) map[string]int {
+		m := map[string]int{}
+		for _, n := range names {
+			if n != except {
+				m[n] = vertexVisited
+			} else if entered {
+				m[n] = vertexEntered
+			}
+		}
+		return m
+	}
+	for _, name := range names {
+		v := g.vertices[name]
+		view.Pre[name], view.PreEntered[name], view.Post[name] = []string{}, []string{}, []string{}
+		for _, d := range names {
+			t.status = all(d, false)
+			if !t.ready(v) {
+				view.Pre[name] = append(view.Pre[name], d)
+			}
+			t.status = all(d, true)
+			if !t.ready(v) {
+				view.PreEntered[name] = append(view.PreEntered[name], d)
+			}
+		}
+		t.status = all("", false)
+		if !t.ready(v) {
+			view.ReadyWhenAllVisited = false
+		}
+		for k := range t.adjacentNodes(v) {
+			view.Post[name] = append(view.Post[name], k)
+		}
+		sort.Strings(view.Post[name])
+		if t.skip(v) {
+			view.Skip = append(view.Skip, name)
+		}
+	}
+	t.status = map[string]int{}
+	for _, v := range t.extremityNodes(g) {
+		view.Ext = append(view.Ext, v.key)
+	}
+	sort.Strings(view.Ext)
+	return view, nil
+}
